@@ -3,7 +3,7 @@ from . import register
 
 register(
     "C01",
-    lean_modules=["GtModel.Props.C01"],
+    lean_modules=["GtModel.Props.C01", "GtModel.Props.C01x", "GtModel.Props.C01m"],
     theorems=[
         "GtModel.C01.sanitize_partial_injection",
         "GtModel.C01.oracle_partial_injection",
@@ -19,17 +19,38 @@ register(
         "GtModel.C01.script_accounts_docs",
         "GtModel.C01.keep_reproduces",
         "GtModel.C01.keep_root",
+        # XML / HTML elements (model GtModel.Xml.xmlEdits, stream scriptxml)
+        "GtModel.C01.xml_elem_accounts",
+        "GtModel.C01.xml_elem_children_length",
+        "GtModel.C01.xml_ed_accounts",
+        "GtModel.C01.xml_fixed_accounts",
+        "GtModel.C01.xml_script_accounts",
+        "GtModel.C01.xml_script_accounts_docs",
+        "GtModel.C01.xml_keep_reproduces",
+        "GtModel.Xml.xbuild_keysDistinct",
+        # general multisets with duplicates (model GtModel.MSet.msGeneral, stream scriptmset): by multiplicity, both sides
+        "GtModel.C01.mset_accounts_from",
+        "GtModel.C01.mset_accounts_to",
+        "GtModel.C01.mset_accounts",
+        "GtModel.C01.mset_children_length",
     ],
-    streams=["script", "scriptx"],
+    streams=["script", "scriptx", "scriptxml", "scriptmset"],
     assumptions=[
         "Tree.KeysDistinct: no mapping holds a key twice (true of every tree built from a Python dict: "
         "GtModel.C01.build_keysDistinct); needed only for the to-side of MultiSetEdit / FixedKeyDictNodeEdit",
         "the engine has fully tightened every bound (the model is the static final script)",
-        "trees are those json.build_tree makes (leaf / list / DictNode / FixedKeyDictNode); XML, CSV and "
-        "multiset-of-non-pairs nodes are not modelled",
+        "trees are those json.build_tree makes (leaf / list / DictNode / FixedKeyDictNode; CSV tables are lists of "
+        "lists of strings) and the XML / HTML elements xml.build_tree makes (xml_* theorems, XTree.KeysDistinct: no "
+        "attribute name twice per element); MultiSetNodes of arbitrary nodes with duplicates (library API): model "
+        "GtModel.MSet.msGeneral, keys = equivalence classes of == (presumes what Python's dict presumes: == on nodes is an "
+        "equivalence compatible with hash); accounting is by multiplicity (equal elements share one node object)",
     ],
     trusted=[
         "correspondence stream `script`: GtModel.edits reproduces the real engine's final script incl. indices",
+        "correspondence stream `scriptxml`: GtModel.Xml.xmlEdits reproduces the real engine's final script incl. "
+        "indices for XML / HTML elements",
+        "correspondence stream `scriptmset`: GtModel.MSet.msGeneral reproduces the real engine's final script, costs "
+        "(incl. the D21 collisions) and children() order on multisets with duplicates",
         "the assignment solver (scipy) is an oracle: its answer is sanitised to a partial injection, theorems hold "
         "for every answer",
     ],
